@@ -13,7 +13,9 @@ PROPS = {
                 rule="sections built through the public section builder from a generated header (all four strand pairs; extents at "
                      "u64::MAX, 2^63 in a quarter of the cases) and a record list: adding up (45%), off by +-k on either side or in a "
                      "record (30%), one value that overflows / underflows (15%), terminating records in odd places (10%); zero sizes in "
-                     "30%. Both stepthrough() and stepthrough_with_data() are drained and must agree. All cases non-trivial; "
+                     "30%. Both stepthrough() and stepthrough_with_data() are drained and must agree. Thorough tier (and the quick tier on a changed "
+                     "tree) adds a completely enumerated small scope: 1-3 records, sizes {0,1,2}, gaps {0,1}^2, 4 strand pairs, starts {0,1}^2, "
+                     "declared extents exact or off by one (37 456 sections). All cases non-trivial; "
                      "distinct = distinct case lines."),
     "C05": dict(props=["Props/C05.v"], profiles=["debug"], gen=gen_C05,
                 rule="byte streams made of lines over {blank, valid header, non-terminating data, terminating data, junk, invalid UTF-8}: "
@@ -27,12 +29,15 @@ PROPS = {
     "C14": dict(props=["Props/C14.v"], profiles=["debug", "release"], gen=gen_C14,
                 rule="sequence constructor calls on (name,size,strand,start,end) strings drawn from valid numbers (incl. 0, u64::MAX, "
                      "leading zeros, '+'), invalid spellings and values around start<=end<=size; every (size,dt,dq,kind) shape of the record "
-                     "constructor; header and data lines, valid and corrupted field-wise; run in debug and release. All generated cases count "
+                     "constructor; header and data lines, valid and corrupted field-wise; run in debug and release. Thorough tier adds every "
+                     "(size,strand,start,end) of a window of 6 values at 0 and at u64::MAX-5. All generated cases count "
                      "as non-trivial; distinct = distinct case lines."),
     "C15": dict(props=["Props/C15.v"], profiles=["debug"], gen=gen_C15,
                 rule="clamp/liftover/try_new calls on generated pairs: positions from {0..3, u64::MAX-3..u64::MAX} "
                      "(45%), 0..40 (40%), uniform u64 (15%); lengths 0,1,2,3,small,huge; all four strand pairs; clamp "
-                     "intervals drawn around the reference ends. A case is non-trivial when the clamp interval meets the "
+                     "intervals drawn around the reference ends. Thorough tier adds a completely enumerated small scope at both ends of "
+                     "the u64 range (every equal-length pair in a window of 5 x every coordinate and every clamp interval of the window, "
+                     "17 600 calls). A case is non-trivial when the clamp interval meets the "
                      "reference interval on the same contig and strand / the lifted coordinate lies inside / the lengths differ; "
                      "distinct = distinct case lines."),
 }
